@@ -4,6 +4,8 @@
 // license that can be found in the LICENSE file or at
 // https://opensource.org/licenses/MIT.
 
+use std::io::Write;
+
 fn main() {
     // `std::env::args()` panics on an argument that is not valid UTF-8.
     let args = match std::env::args_os()
@@ -12,7 +14,11 @@ fn main() {
     {
         Ok(args) => args,
         Err(arg) => {
-            eprintln!("Error: argument {arg:?} is not valid UTF-8");
+            // (not eprintln!, which panics when stderr cannot be written)
+            let _ = writeln!(
+                std::io::stderr(),
+                "Error: argument {arg:?} is not valid UTF-8"
+            );
             std::process::exit(1);
         }
     };
